@@ -141,7 +141,8 @@ def gen_specs(rng, quick):
 
 def gen_params(rng, quick):
     """(noise variance, percentage, epsilon) triples."""
-    out = [(0.0, 0.0, 0.0), (0.25, 0.05, 0.05), (1.0, 1.0, 0.0), (2.0, 0.5, 1.0)]
+    out = [(0.0, 0.0, 0.0), (0.25, 0.05, 0.05), (1.0, 1.0, 0.0), (2.0, 0.5, 1.0),
+           (1e-9, 0.5, 0.1), (2.0 ** -40, 1.0, 0.0)]          # a small variance is a variance (curves in small units)
     if not quick:
         out.append((0.0, 0.9, 0.05))
     for _ in range(1 if quick else 6):
@@ -378,6 +379,10 @@ def noise_terms(run, todo, spec, params, what, src, noisy, log, s, dd):
     if not ok:
         return False
     draws = parse_noise(log, shapes)
+    if draws is None and v > 0 and all(np.array_equal(rows_of(c), rows_of(n)) for c, n in zip(cs, cn)):
+        dd.violation("noise-missing", f"{what}: noise variance {v!r} > 0 but the 'noisy' curves are the source curves "
+                     f"(draws observed at the generator: {[r[0] for r in log]})", {**info, "X": C.hexf(rows_of(cs[0]))})
+        return False
     if draws is None:
         run_note = f"{what}: draws of add_noise could not be read at the generator interface ({[r[0] for r in log]}); model not evaluated"
         dd.rep.notes.append(run_note) if run_note not in dd.rep.notes else None
